@@ -288,7 +288,7 @@ impl Property for C14 {
         "C14"
     }
     fn cases(&self, cfg: &Cfg) -> u64 {
-        cfg.tier.pick(1_500, 150_000)
+        cfg.tier.pick(12_000, 150_000)
     }
     fn run_case(&self, cfg: &Cfg, i: u64, acc: &mut Acc) {
         let mut r = Rng::keyed(&[cfg.seed, 14, i]);
